@@ -244,7 +244,7 @@ def check_write(case, rec):
 
 # ------------------------------------------------------------------------------------ strategies
 
-HEADER = st.text(alphabet=st.sampled_from(list("abcXYZ019_ ,\"'.-é中")), min_size=1, max_size=8)
+HEADER = st.text(alphabet=st.sampled_from(list("abcXYZ019_ ,\"'.-é中") + ["\x0b", "\x0c", "\x1c", "\x1e", "\x85", "\u2028"]), min_size=1, max_size=8)
 FINITE = st.floats(allow_nan=False, allow_infinity=False, allow_subnormal=True)
 SPECIAL = st.sampled_from([0.0, -0.0, 5e-324, 2.2250738585072014e-308, 1.7976931348623157e+308, -1.7976931348623157e+308, 0.1, 1 / 3.0,
                            123456789.12345679, 1e22, 1e23, 9007199254740993.0])
